@@ -194,7 +194,8 @@ class Run:
         return e['res']
 
     def _cid(self, data):
-        s = data.rstrip(b'.')
+        from .sandbox import PAD
+        s = data.rstrip(PAD)
         try:
             c = s.decode('ascii')
             if not c or len(c) > 24:
@@ -364,6 +365,8 @@ class Run:
                 raise x
             elif s == 'handoff':
                 self.handoff = builder
+                self.handoff_frame = fr
+                self.ev(ev='handoff')
                 from .sched import CoopLock as _CL
                 if _CL.current_sched is not None and _CL.current_sched.me() is not None:
                     # preemption points of the owner are counted from the hand-off on
@@ -417,18 +420,20 @@ class Run:
                 b = me.handoff
                 if b is None:
                     return
+                hfr = getattr(me, 'handoff_frame', None) or root
                 for st in spec['ops']:
                     del tmp[:]
                     fenced = False
+                    seq0 = sched.seq
                     try:
                         if st['s'] == 'q':
-                            me.query(b, root, st)
+                            me.query(b, hfr, st)
                             r = tmp[-1]['res'] if tmp else {'ok': True}
                             fenced = (not r['ok']) and r.get('err') == 'RuntimeError'
                         else:
                             sub = dict(st)
                             sub['catch'] = True
-                            me.call_complex(b, root, sub)
+                            me.call_complex(b, hfr, sub)
                             last = tmp[-1] if tmp else {}
                             fenced = (last.get('out') == 'raised' and last.get('err') == 'RuntimeError'
                                       and not last.get('inv'))
@@ -441,7 +446,10 @@ class Run:
                                       'p': st.get('p', []), 'res': {'ok': False, 'err': 'RuntimeError'},
                                       'called': 0})
                     else:
-                        before.extend(dict(e) for e in tmp)
+                        blk = [dict(e) for e in tmp]
+                        if blk:
+                            blk[0]['_win'] = (seq0, sched.seq)
+                        before.append(blk)
             finally:
                 me.sinks.pop(threading.get_ident(), None)
         old_hook = self.interposer.yield_hook if self.interposer else None
@@ -454,13 +462,47 @@ class Run:
             CoopLock.current_sched = None
             if self.interposer:
                 self.interposer.yield_hook = old_hook
-        # merge: successful straggler operations just before the end of the root function
-        cut = None
-        for i in range(len(own) - 1, -1, -1):
-            if own[i]['ev'] == 'fn_end':
-                cut = i
-                break
-        merged = own if cut is None else own[:cut] + before + [own[cut]] + after + own[cut + 1:]
+        # merge: completed straggler operations just before the end of the function that handed its builder
+        # over; the call owning that builder ends at `close` (its bf_end / sb_end, or the end of the build)
+        cut = close_g = None
+        hpos = [i for i, e in enumerate(own) if e['ev'] == 'handoff']
+        if hpos:
+            depth = 0
+            for i in range(hpos[0] + 1, len(own)):
+                ev = own[i]['ev']
+                if ev == 'invoke':
+                    depth += 1
+                elif ev == 'fn_end':
+                    if depth == 0:
+                        cut = i
+                        break
+                    depth -= 1
+            if cut is not None:
+                close_g = own[cut + 1].get('_g') if cut + 1 < len(own) else None
+        # linearisation: an operation is attached to the record when the straggler takes the builder's lock
+        # (_append_suboperation); the record is closed by the owner's last acquisition of that lock.  An
+        # operation that returned without RuntimeError although it took the lock after the close was attached
+        # to a closed record.  (The root builder appends nothing and has no such lock protocol.)
+        hb_lock = id(getattr(self.handoff, '_lock', None)) if getattr(self.handoff, '_operation', None) is not None else None
+        owner_last = max([q for q, th, lk in sched.lock_log if th == 0 and lk == hb_lock] or [None]) \
+            if hb_lock is not None else None
+        flat = []
+        for blk in before:
+            win = blk[0].pop('_win', None) if blk else None
+            late = False
+            if owner_last is not None and win is not None:
+                late = any(th == 1 and lk == hb_lock and win[0] < q <= win[1] and q > owner_last
+                           for q, th, lk in sched.lock_log)
+            if late:
+                # returned normally although the call that owns the builder had already returned (C17)
+                after.append({'ev': 'stale', 'which': 'late', 'method': blk[0].get('kind', blk[0]['ev']),
+                              'p': blk[0].get('p', []), 'res': {'ok': True, 'err': ''}, 'called': 0})
+            else:
+                flat.extend(blk)
+        own = [e for e in own if e['ev'] != 'handoff']
+        if cut is not None:
+            cut -= 1          # the handoff marker preceded it
+        merged = own if cut is None else own[:cut] + flat + [own[cut]] + after + own[cut + 1:]
         if cut is None and (before or after):
             res['unjudged'] = True
         for e in merged:
@@ -468,12 +510,13 @@ class Run:
             self.events.append(e)
         self.par_info.append({'yields': list(sched.yields), 'switches': sched.switches, 'deadlock': sched.deadlock,
                               'errors': [repr(x) for x in errors if x is not None],
-                              'straggler': {'before': len(before), 'fenced': len(after)}})
+                              'straggler': {'before': len(flat), 'fenced': len(after)}})
         if sched.deadlock or any(x is not None for x in errors):
             self.ev(ev='par_fail', deadlock=sched.deadlock, errors=[repr(x)[:200] for x in errors if x is not None])
         if res.get('unjudged'):
             self.unjudged = True
         self.handoff = None
+        self.handoff_frame = None
         return res.get('out') or {'out': 'raised', 'v': {'k': 'none'}, 'err': 'HarnessNoResult', 'same': False}
 
     def run_par(self, builder, fr, st):
@@ -635,7 +678,23 @@ class Run:
                 disk=disk, cser=self._cser(disk), out=out, err=err, after=after,
                 tmp=sb.tmp_entries() == [])
 
+    def _fs_event(self, name, args):
+        """C03 call log: every successful rename / remove / replace / rmdir of the library inside the sandbox
+        root becomes an `fs` event (source path of a rename, destination of a replace)."""
+        if name not in ('rename', 'remove', 'replace', 'rmdir'):
+            return
+        try:
+            a = os.fsdecode(args[1] if name == 'replace' else args[0])
+        except Exception:
+            return
+        root = self.sb.root
+        if not (a == root or a.startswith(root + os.sep)):
+            return
+        self.ev(ev='fs', call=name, p=self.sb.unpath(a))
+
     def run(self):
+        if self.interposer is not None and self.sc.get('fslog'):
+            self.interposer.fs_hook = self._fs_event
         if self.interposer is not None:
             if self.sc.get('threads'):
                 from .sched import CoopLock
@@ -664,7 +723,8 @@ class Run:
                     raise ValueError(op)
         finally:
             self.sb.destroy()
-        out = {'id': self.sc.get('id', ''), 'cache': list(self.sb.cache_path), 'events': self.events}
+        out = {'id': self.sc.get('id', ''), 'cache': list(self.sb.cache_path),
+               'events': [e for e in self.events if e['ev'] != 'handoff']}
         if self.interposer is not None:
             out['eligible'] = self.interposer.eligible
             out['fault_fired'] = self.interposer.fault_fired
